@@ -295,7 +295,35 @@ pub fn check_algebra(a: u16, b: u16, opcode: u8, rcode: u16, subs: Option<&[u16]
     out
 }
 
+/// A serialisation that fails part-way (a LOC record with a version the writer refuses) through
+/// each entry point, on this thread: whatever it leaves behind must not leak into later outputs.
+pub fn provoke_failed_builds() {
+    use simple_dns::rdata::{RData, LOC};
+    use simple_dns::{Name, ResourceRecord, CLASS};
+    let _ = guarded(|| {
+        let mut p = Packet::new_reply(0xdead);
+        p.set_flags(simple_dns::PacketFlag::AUTHORITATIVE_ANSWER | simple_dns::PacketFlag::RECURSION_DESIRED);
+        p.answers.push(ResourceRecord::new(Name::new_unchecked("ok.example"), CLASS::IN, 1, RData::A(simple_dns::rdata::A { address: 0x01010101 })));
+        p.answers.push(ResourceRecord::new(
+            Name::new_unchecked("bad.example"),
+            CLASS::IN,
+            1,
+            RData::LOC(LOC { version: 1, size: 0, horizontal_precision: 0, vertical_precision: 0, latitude: 0, longitude: 0, altitude: 0 }),
+        ));
+        let a = p.build_bytes_vec().is_err();
+        let b = p.build_bytes_vec_compressed().is_err();
+        let mut cur = std::io::Cursor::new(Vec::new());
+        let c = p.write_to(&mut cur).is_err();
+        let mut cur = std::io::Cursor::new(Vec::new());
+        let d = p.write_compressed_to(&mut cur).is_err();
+        (a, b, c, d)
+    });
+}
+
 pub fn check_build(flags: u16, opcode: u8, rcode: u16, id: u16, n: [usize; 4]) -> Vec<Finding> {
+    if (flags as usize + opcode as usize + rcode as usize + n[0]) % 3 == 0 {
+        provoke_failed_builds();
+    }
     let case = json!({"kind": "build", "flags": flags, "opcode": opcode, "rcode": rcode, "id": id, "n": n});
     let mut p = RefPacket { id, flags, opcode, rcode, ..Default::default() };
     for _ in 0..n[0] {
